@@ -1,5 +1,48 @@
-import Secp.Hand.History
-/-! # C01 — placeholder: theorems are being added in this session -/
+import Secp.Proofs.LimbGroup
+/-!
+# C01 — scalar multiplication equals k-fold addition for every scalar and point
+
+Model of the code: `Hand.Element.multiply` — nil scalar → identity; `IsOne` shortcut; the 256-iteration ladder over
+`Scalar.Bits`, each iteration one generated complete addition and one generated complete doubling in the aliasing
+pattern "receiver = first operand". Specification: `k • P` in Mathlib's group.
+
+`C01_ladder` is the statement for **every** bit string (so every scalar, bit 255 set or not, `k = 0`, `k = n-1`,
+`P` = identity in any representation): the ladder invariant `r0 = [prefix]P`, `r1 = r0 + P` by induction over the bits.
+`C01` composes it with the two scalar-level facts `Multiply` consumes. `bits_denote` (that `Bits` is the binary
+expansion of the canonical value) is C14; on the pinned tree it was false at bit 255 — defect F1, repaired by
+commit 660d03b — and the regenerated `Facts.bitsLoopBound` below is what ties this file to the loop bound in the source.
+-/
 namespace C01
-theorem model_is_total : True := trivial
+open Hand.Element
+
+abbrev F := Hand.limbOps
+abbrev Valid (P : Pt L4) : Prop := PtValid limbLawful P
+noncomputable abbrev G (P : Pt L4) := toGp limbLawful curveOK_Fp P
+
+/-- the ladder computes `[evalBits bits]P` for every valid `P` and every bit list -/
+theorem C01_ladder (P : Pt L4) (hP : Valid P) (bits : List Nat) :
+    Valid (ladder F P bits) ∧ G (ladder F P bits) = (evalBits bits) • G P :=
+  ladder_correct limbLawful curveOK_Fp limb_curveConsts P hP bits
+
+/-- **C01**: `Multiply` by a non-nil scalar `s` denoting `k` (i.e. `IsOne` answers true only for `k = 1`, and `Bits`
+is the binary expansion of `k` — both are statements about the scalar layer, C13/C14) yields exactly `[k]P`,
+a valid element. -/
+theorem C01 (P : Pt L4) (hP : Valid P) (s : L4) (k : Nat)
+    (hone : Hand.Scalar.isOne s = true → k = 1) (hbits : evalBits (Hand.Scalar.bits s) = k) :
+    Valid (multiply F P (some s)) ∧ G (multiply F P (some s)) = k • G P := by
+  rw [multiply_some]
+  exact multiplyCore_correct limbLawful curveOK_Fp limb_curveConsts P hP _ _ k hone hbits
+
+/-- a nil scalar yields the identity -/
+theorem C01_nil (P : Pt L4) : G (multiply F P none) = 0 := by
+  rw [multiply_nil]; exact toGp_identity limbLawful curveOK_Fp
+
+/-- the loop in `Scalar.Bits` covers all 256 positions and its body is the shift-and-mask of the model
+(read from the source by `go2lean` on every run) -/
+theorem bits_loop_covers_all_positions :
+    Facts.bitsLoopBound = 256 ∧ Facts.bitsLoopBody = "{ out[i] = uint8((n[i/64] >> (i % 64)) & 1) }" := by decide
+
+example : Valid Hand.ElementL.base := base_valid
+example : Valid (identity F) := identity_valid limbLawful
+
 end C01
